@@ -1395,13 +1395,18 @@ public:
         }
 
         i0 = colSol[j1];
+        // with floating point costs uSubMin - uMin may be too small to change v[j1]:
+        // this must be handled as 'equal', otherwise two rows take the column from each other for ever.
+        bool lowers = false;
         if (uMin < uSubMin)
         {
           // change the reduction of the minimum column to increase the minimum
           // reduced cost in the row to the subminimum.
-          v[j1] = v[j1] - (uSubMin - uMin);
+          Scalar vNew = v[j1] - (uSubMin - uMin);
+          lowers = vNew < v[j1];
+          v[j1] = vNew;
         }
-        else                    // minimum and subminimum equal.
+        if (!lowers)            // minimum and subminimum equal.
         {
           if (i0 >= 0)         // minimum column j1 is assigned.
           {
@@ -1417,7 +1422,7 @@ public:
 
         if (i0 >= 0)            // minimum column j1 assigned earlier.
         {
-          if (uMin < uSubMin)
+          if (lowers)
           {
             // put in current k, and go back to that k.
             // continue augmenting path i - j1 with i0.
